@@ -93,7 +93,7 @@ def run(ctx):
             batch = [reqgen.entry_of(k, rng) for k in combo]
             one(ctx, fxs, cfg, json.dumps(batch), "composition")
     ctx.exhaustive["batch compositions of length<=4 over 6 entry kinds (thorough only)"] = not ctx.quick
-    for i in range(ctx.pick(1200, 150000)):
+    for i in range(ctx.pick(6000, 150000)):
         cfg = rng.choice(CONFIGS)
         kinds = [rng.choice(reqgen.ALL_KINDS) for _ in range(rng.randint(5, 8))]
         batch = [with_id(reqgen.entry_of(k, rng), rng.choice(ids)) if rng.random() < 0.5 else reqgen.entry_of(k, rng)
@@ -103,13 +103,13 @@ def run(ctx):
         if i == 0:
             ctx.sample({"bclass": "long-batch", "body": body})
     # batches that produce no response at all
-    for i in range(ctx.pick(100, 8000)):
+    for i in range(ctx.pick(500, 8000)):
         cfg = rng.choice(CONFIGS)
         batch = [reqgen.entry_of("notification", rng) for _ in range(rng.randint(1, 5))]
         one(ctx, fxs, cfg, json.dumps(batch), "all-notifications")
     # (c) matrix slice
     size = reqgen.matrix_size()
-    step = ctx.pick(37, 5)
+    step = ctx.pick(11, 5)
     for idx in range((ctx.seed * 7 + ctx.shard) % step, size, step * ctx.nshards):
         cfg = CONFIGS[idx % len(CONFIGS)]
         text = json.dumps(reqgen.matrix_entry(idx))
